@@ -879,6 +879,9 @@ def _ord_atoms(g, key_is):
             fields = {x["f"] for x in srcs if x["k"] == "field"}
             is_entry = "index_entries" in fields or ("key" in fields and not is_key)
             prev = any(x["k"] == "bin" and x["op"].startswith("Sub") for x in srcs)
+            for x in srcs:
+                if x["k"] == "call" and re.search(r"index::Index.*::index$|::index$", x["callee"]) and len(x["t"]["args"]) == 2:
+                    prev = prev or any(y["k"] == "bin" and y["op"].startswith("Sub") for y in P.value_slice(g, x["t"]["args"][1])[0])
             sides.append((is_key and not is_entry, is_entry, prev))
         (k0, e0, p0), (k1, e1, p1) = sides
         if e0 and k1:
@@ -932,7 +935,7 @@ def c109(ctx):
                 if s_["k"] == "call":
                     for k_ in ctx.prog.targets(s_["t"]):
                         g = ctx.prog.fns.get(k_)
-                        if g is not None and g.crate == "sst":
+                        if g is not None and g.crate == "sst" and g.locals[0] == "bool":
                             atoms += _ord_atoms(g, key_is)
         atoms += _ord_atoms(f, key_is)
         lower = [a for a in atoms if a[1]]
